@@ -2251,6 +2251,7 @@ func (d *Data) newLabel(v dvid.VersionID) (uint64, error) {
 	}
 	d.MaxRepoLabel++
 	d.MaxLabel[v] = d.MaxRepoLabel
+	dvid.VerifPoint("labelmap.newLabel", d.MaxRepoLabel)
 	if err := d.persistMaxLabel(v); err != nil {
 		return d.MaxRepoLabel, err
 	}
@@ -2280,6 +2281,7 @@ func (d *Data) newLabels(v dvid.VersionID, numLabels uint64) (begin, end uint64,
 	}
 	begin = d.MaxRepoLabel + 1
 	end = d.MaxRepoLabel + numLabels
+	dvid.VerifPoint("labelmap.newLabels", end)
 	d.MaxRepoLabel = end
 	d.MaxLabel[v] = d.MaxRepoLabel
 	if err = d.persistMaxLabel(v); err != nil {
